@@ -270,6 +270,8 @@ class Runner:
         t0 = time.time()
         d = os.path.join(self.work, h.name)
         gb, err = self.compile(h, cover=False)
+        if getattr(h, "what_extra", None):
+            r["notes"].append("generated sources: " + h.what_extra)
         if err:
             r["status"] = "inconclusive"
             r["notes"].append(err)
